@@ -637,7 +637,7 @@ def check(prop_name, tier, seed, replay=None):
     finally:
         shutil.rmtree(root, ignore_errors=True)
     ev["wall_s"] = round(time.time() - t0, 2)
-    if status != 2 and not replay:
+    if status != 2 and not replay and not os.environ.get("VERIF_NO_EVIDENCE"):
         os.makedirs(os.path.join(VERIF, "evidence"), exist_ok=True)
         fn = os.path.join(VERIF, "evidence", pid + ".json")
         with open(fn + ".tmp", "w") as f:
